@@ -194,6 +194,14 @@ pub fn run_case(prop: &str, sub: u64, histories: usize, scratch: &Path, acc: &mu
         let mark: &[u8] = [&b"\xEF\xBB\xBF"[..], &b"\xFF\xFE"[..], &b"\xFE\xFF"[..]][rng.below(3)];
         case.data = [mark, &case.data[..]].concat();
         acc.faults.inc("mark-bytes-with-sniffing-off");
+    } else if prop == "C02" && rng.chance(1, 16) && !case.data.is_empty() {
+        // an explicit UTF-8 label and a byte that is not UTF-8: every route replaces it alike
+        case.cfg.encoding = Some("utf-8".into());
+        let at = rng.below(case.data.len());
+        if case.data[at] != case.cfg.term.byte() && case.data[at] != b'\r' {
+            case.data[at] = [0xFFu8, 0xC0, 0x80][rng.below(3)];
+        }
+        acc.faults.inc("invalid-byte-under-explicit-utf8-label");
     }
     if build_matcher(&case).is_err() {
         acc.probes.inc("matcher-rejected-pattern");
